@@ -319,13 +319,23 @@ func drawScalar(t *rapid.T, fd protoreflect.FieldDescriptor) protoreflect.Value 
 }
 
 func drawString(t *rapid.T) string {
-	switch rapid.IntRange(0, 5).Draw(t, "strcls") {
-	case 0:
+	switch rapid.IntRange(0, 11).Draw(t, "strcls") {
+	case 0, 1:
 		return ""
-	case 1:
+	case 2, 3:
 		return "a"
-	case 2:
+	case 4, 5:
 		return strings.Repeat("x", rapid.IntRange(120, 140).Draw(t, "longstr"))
+	case 6:
+		// sizes around the thresholds code tends to treat differently: one- to two-byte and two- to three-byte length
+		// prefixes, powers of two that buffers and slabs are sized by
+		sizes := []int{255, 256, 257, 300, 1023, 1024, 1025, 4096, 16383, 16384, 70000}
+		n := sizes[rapid.IntRange(0, len(sizes)-1).Draw(t, "bigstr")]
+		b := make([]byte, n)
+		for i := range b {
+			b[i] = byte('A' + i%23)
+		}
+		return string(b)
 	default:
 		n := rapid.IntRange(1, 12).Draw(t, "strlen")
 		b := make([]byte, n)
